@@ -328,6 +328,7 @@ class SolverActor:
         self.fired_faults = []
         self.persist_fault = None
         self.cb_count = {}
+        self.late_listeners = []
         self.ucb_count = {}
         self.fired_lfaults = []
         self.solve_budget = None
@@ -453,6 +454,11 @@ class SolverActor:
         ev = self.solver.evolvent
         q = op["q"]
         self.world.fired["evolvent_query_" + q] += 1
+        if q == "setbounds_same":
+            # re-stating the box the evolvent already has (a harmless call: nothing may change)
+            ev.SetBounds(np.array(self.lower, dtype=np.double), np.array(self.upper, dtype=np.double))
+            self.world.log("evq", self.aid, "setbounds_same")
+            return None
         if q == "image":
             r = ev.GetImage(float(op["x"]))
             self.world.log("evq", self.aid, "image %s -> %s" % (fhex(op["x"]), vhex(r)))
@@ -672,6 +678,8 @@ class SolverActor:
 
     def walk(self, limit=None):
         """Public iteration over the solver's search data (guarded against cycles)."""
+        if self.solver is None:
+            return []
         sd = self.solver.searchData
         out = []
         cap = (limit or (len(self.calls) + 16)) + 8
@@ -689,7 +697,7 @@ class SolverActor:
     def sync(self):
         """Pull the trials evaluated since the last sync into self.trials (in evaluation
         order, validated against the objective log) and run the AGP model over them."""
-        if not self.created or self.desync:
+        if not self.created or self.desync or self.solver is None:
             return
         newcalls = [c for c in self.calls[self.synced_calls:] if c.phase in ("global", "global_extra") and c.completed]
         self.synced_calls = len(self.calls)
@@ -1033,6 +1041,38 @@ class World:
                 outcome["evq"] = a.query_evolvent(op)
             elif kind == "sdq":
                 outcome["sdq"] = a.query_search_data(op)
+            elif kind == "saveload":
+                # SaveProgress immediately followed by LoadProgress of the same file: whatever these do (empty stubs at this
+                # commit), a round trip with nothing in between must leave the search where it was
+                import tempfile as _tf
+                fn = os.path.join(_tf.gettempdir(), "dsim-progress-%d-%s.json" % (os.getpid(), a.aid))
+                try:
+                    a.solver.SaveProgress(fn)
+                    a.solver.LoadProgress(fn)
+                finally:
+                    try:
+                        os.unlink(fn)
+                    except OSError:
+                        pass
+                cur = a.walk()
+                if cur and any(id(it) not in a.known_items for it in cur):
+                    a.known_items = {id(it): it for it in cur}      # (an implementation that rebuilds the items on load)
+                self.fired["save_load_round_trip"] += 1
+            elif kind == "addl":
+                # a listener is attached in mid-run
+                lid = 200 + a.cb_count.get("_addl", 0)
+                a.cb_count["_addl"] = a.cb_count.get("_addl", 0) + 1
+                a.solver.AddListener(make_recording_listener(a, lid, ["BeforeMethodStart", "OnEndIteration", "OnMethodStop"]))
+                a.late_listeners.append((lid, a.op_no))
+                self.fired["listener_attached_in_mid_run"] += 1
+            elif kind == "drop":
+                # the user keeps the Solutions it was handed and lets go of the Solver object itself
+                import gc as _gc
+                a.solver = None
+                a.problem = None
+                a.aborted = "dropped"
+                _gc.collect()
+                self.fired["solver_dropped_solutions_kept"] += 1
             elif kind == "clone":
                 # checkpoint / rollback: the user continues with a deep copy of the solver
                 import copy as _copy
